@@ -200,6 +200,22 @@ func genLife(seed int64, allow map[string]bool) *Scenario {
 		if r.Intn(10) == 0 {
 			hp.WithholdFin = 1
 		}
+		if r.Intn(8) == 0 && !ended && len(b.ids) < b.sc.N {
+			// the open trigger arrives while another request holds the engine lock, and a close / release / break lands
+			// while it waits
+			var then []Op
+			switch r.Intn(3) {
+			case 0:
+				then = []Op{{Op: "finishall"}, {Op: "sleep", Amt: 20}, {Op: "close"}}
+				ended = true
+			case 1:
+				then = []Op{{Op: "finishall"}, {Op: "sleep", Amt: 20}, {Op: "release"}}
+				ended = true
+			default:
+				then = []Op{{Op: "finishall"}, {Op: "sleep", Amt: 20}, {Op: "blind", Blind: []int64{-1, 0, 0, 0, 0}}}
+			}
+			hp.Inj = append(hp.Inj, Inj{At: "prefinish", Ops: []Op{{Op: "bgreserve", ID: b.newID(), Seat: -1, Chips: 9, Then: then}}})
+		}
 		b.hand(hp)
 		if ended {
 			// after a close/release between or during hands nothing may open any more: try to provoke it
